@@ -238,7 +238,7 @@ PROPS.update({
         technique=SIM_TECH + "; faults = shutdown / shutdown-and-restart requests injected into running models",
         level_text="Seeded exploration with fault injection: shutdown(), shutdow_and_restart_in/at (restart delays incl. 0) are attached to "
                    "scripted timers or to the n-th receive of 1..3 victim modules inside models with open-loop traffic, latency-only "
-                   "channels and transit gates owned by victims (in a quarter of the models every module lives in a box of its own and all carry the same local name); a history checker derives the downtime intervals from the recorded requests "
+                   "channels and transit gates owned by victims (in half of the models with a transit module its two gates are connected to each other, so that traffic really passes through it; in a quarter of the models every module lives in a box of its own and all carry the same local name); a history checker derives the downtime intervals from the recorded requests "
                    "and checks that nothing of a victim runs inside them, that reset / start-up stages happen exactly once at the "
                    "requested instant, that messages are dropped iff a module on their way is down when they pass, and that all other "
                    "traffic and timers are untouched.",
